@@ -48,6 +48,7 @@ for ENTRY in $PLAN; do
   [ -x "$EXE" ] || { echo "INCONCLUSIVE property=$PROP fuzz binary missing" >&2; exit 2; }
   rm -rf "$WORK/seedcorpus"
   "$BIN" gen-corpus "$TARGET" "$WORK/seedcorpus" >/dev/null || { echo "INCONCLUSIVE property=$PROP corpus generation failed" >&2; exit 2; }
+  DICT=""; [ -f "$ROOT/fuzz/dict/$TARGET.dict" ] && DICT="-dict=$ROOT/fuzz/dict/$TARGET.dict"
   START=$(date +%s)
   PIDS=()
   launch() { # index corpus-kind runs max_len
@@ -55,7 +56,7 @@ for ENTRY in $PLAN; do
     local d="$WORK/$TARGET-p$k"; mkdir -p "$d/corpus" "$d/artifacts"
     [ "$kind" = "seeded" ] && cp "$WORK/seedcorpus"/* "$d/corpus/" 2>/dev/null
     ( cd "$d" && DLTVERIF_ORACLE="$PROP" exec "$EXE" "$d/corpus" -runs="$runs" -seed=$((SEED*1000+k+1)) -len_control=0 -max_len="$maxlen" \
-        -rss_limit_mb=4096 -artifact_prefix="$d/artifacts/" -print_final_stats=1 $EXTRA >"$d/log" 2>&1 ) &
+        -rss_limit_mb=4096 -artifact_prefix="$d/artifacts/" -print_final_stats=1 $DICT $EXTRA >"$d/log" 2>&1 ) &
     PIDS+=($!); ALLPIDS+=($!)
   }
   N=0
